@@ -173,6 +173,7 @@ class Engine:
         self.objs: dict[Any, Any] = {}  # tag -> object (pinned)
         self.tag_of: dict[int, Any] = {}  # id(object) -> tag
         self.factory_calls: dict[int, int] = {}
+        self.kept_events: list[Any] = []
         self.factory_body_runs: dict[int, int] = {}
         self.factories: dict[int, Any] = {}
         self.next_id = 0
@@ -300,6 +301,18 @@ class Engine:
                             async for ev in stream:
                                 a.received.append(ev)
 
+                    clogged_ready = anyio.Event()
+
+                    async def clogged_listener() -> None:
+                        # subscribed *before* the real listener; holds one event and never reads: from the second publication
+                        # on its queue is full, which is nobody else's problem
+                        async with a.ctx.resource_added.stream_events(max_queue_size=1):
+                            clogged_ready.set()
+                            await anyio.sleep_forever()
+
+                    if a.cid % 2 == 0:
+                        ltg.start_soon(clogged_listener)
+                        await clogged_ready.wait()
                     ltg.start_soon(listener)
                     await ready.wait()
                     a.entered.set()
@@ -377,10 +390,28 @@ class Engine:
                                                 f"name={ev.resource_name!r} desc={ev.resource_description!r} is_factory={ev.is_factory}; expected {self.fmt_events(expected)}")
             else:
                 exp.remove(match)
+                self.kept_events.append((cid, ev, (tuple(ev.resource_types), ev.resource_name, ev.resource_description, ev.is_factory, ev.time)))
                 if ev.source is not src or ev.topic != "resource_added":
                     self.bad("announce-fields", f"{cmd}: event source/topic wrong: source is context {self.cid_of.get(id(ev.source))}, topic {ev.topic!r}")
         for e in exp:
             self.bad("announce-missing", f"{cmd}: expected exactly one ResourceEvent {self.fmt_events([e])} but none was dispatched")
+
+    def check_kept_events(self) -> None:
+        """what a listener received stays what it was: every dispatch delivers an event object of its own, and an event keeps
+        its source and fields however many publications follow in this or other contexts"""
+        seen: dict[int, int] = {}
+        for cid, ev, snap in self.kept_events:
+            if id(ev) in seen:
+                self.bad("announce-event-reused", f"one ResourceEvent object was dispatched twice (on context {seen[id(ev)]} and on context {cid}): "
+                                                  f"types={[getattr(t, '__name__', t) for t in snap[0]]} name={snap[1]!r}")
+                return
+            seen[id(ev)] = cid
+            now = (tuple(ev.resource_types), ev.resource_name, ev.resource_description, ev.is_factory, ev.time)
+            if ev.source is not self.ctx_objs.get(cid) or now != snap:
+                self.bad("announce-fields", f"an event dispatched on context {cid} later reads source=context {self.cid_of.get(id(ev.source))}, fields {now}; "
+                                            f"when it was dispatched: source=context {cid}, fields {snap}")
+                return
+        self.inc("kept_events_rechecked", len(self.kept_events))
 
     def fmt_events(self, evs: list[Any]) -> str:
         return str([{"ctx": c, "types": [[tname(POOL[t]) for t in alt] for alt in alts], "name": n, "desc": d, "is_factory": f} for c, alts, n, d, f in evs])
@@ -1123,6 +1154,8 @@ class Engine:
                     await self.step(cmd)
                     if cmd["op"] in ("construct", "sibling_seq") and cmd.get("then_enter") and not self.violations:
                         await self.step({"op": "enter", "cid": cmd["cid"], "in_component": self.rng.random() < 0.3})
+                if not self.violations:
+                    self.check_kept_events()
                 # leave everything, leaves first
                 while not self.violations:
                     open_ = self.open_ctxs()
